@@ -45,48 +45,40 @@ using Bytes = std::vector<unsigned char>;
 // =============================================================================================== reference
 namespace ref {
 
-struct Op { int code; Bytes data; };
-
-// Splits a script into opcodes. Parsing stops at a push that runs past the end (complete=false).
-static std::vector<Op> Parse(const Bytes& s, bool& complete)
+// Walks a script opcode by opcode: fn(opcode, data pointer, data length). Parsing stops at a push that runs past
+// the end; returns false in that case.
+template <typename F>
+static bool Walk(const unsigned char* s, size_t n, F fn)
 {
-    std::vector<Op> ops;
     size_t i = 0;
-    complete = true;
-    while (i < s.size()) {
+    while (i < n) {
         int c = s[i++];
         uint64_t len = 0;
-        bool push = false;
-        if (c >= 1 && c <= 75) { len = c; push = true; }
-        else if (c == 76) { if (s.size() - i < 1) { complete = false; break; } len = s[i]; i += 1; push = true; }
-        else if (c == 77) { if (s.size() - i < 2) { complete = false; break; } len = s[i] | (s[i + 1] << 8); i += 2; push = true; }
-        else if (c == 78) { if (s.size() - i < 4) { complete = false; break; } len = (uint64_t)s[i] | ((uint64_t)s[i + 1] << 8) | ((uint64_t)s[i + 2] << 16) | ((uint64_t)s[i + 3] << 24); i += 4; push = true; }
-        Op op{c, {}};
-        if (push) {
-            if (s.size() - i < len) { complete = false; break; }
-            op.data.assign(s.begin() + i, s.begin() + i + len);
-            i += len;
-        }
-        ops.push_back(std::move(op));
+        if (c >= 1 && c <= 75) len = c;
+        else if (c == 76) { if (n - i < 1) return false; len = s[i]; i += 1; }
+        else if (c == 77) { if (n - i < 2) return false; len = s[i] | (s[i + 1] << 8); i += 2; }
+        else if (c == 78) { if (n - i < 4) return false; len = (uint64_t)s[i] | ((uint64_t)s[i + 1] << 8) | ((uint64_t)s[i + 2] << 16) | ((uint64_t)s[i + 3] << 24); i += 4; }
+        if (n - i < len) return false;
+        fn(c, s + i, (size_t)len);
+        i += len;
     }
-    return ops;
+    return true;
 }
 
 // Signature operations of one script: CHECKSIG(VERIFY) = 1; CHECKMULTISIG(VERIFY) = 20, or, in accurate mode
 // (BIP16), n when the opcode immediately before it is OP_1..OP_16.
-static int64_t SigOps(const Bytes& s, bool accurate)
+static int64_t SigOps(const unsigned char* s, size_t len, bool accurate)
 {
-    bool complete;
-    auto ops = Parse(s, complete);
     int64_t n = 0;
     int last = 0xff;
-    for (auto& op : ops) {
-        if (op.code == 0xac || op.code == 0xad) n += 1;
-        else if (op.code == 0xae || op.code == 0xaf) n += (accurate && last >= 0x51 && last <= 0x60) ? last - 0x50 : 20;
-        last = op.code;
-    }
+    Walk(s, len, [&](int code, const unsigned char*, size_t) {
+        if (code == 0xac || code == 0xad) n += 1;
+        else if (code == 0xae || code == 0xaf) n += (accurate && last >= 0x51 && last <= 0x60) ? last - 0x50 : 20;
+        last = code;
+    });
     return n;
 }
+template <typename C> static int64_t SigOps(const C& c, bool accurate) { return SigOps(c.data(), c.size(), accurate); }
 
 static bool IsP2SH(const Bytes& s) { return s.size() == 23 && s[0] == 0xa9 && s[1] == 0x14 && s[22] == 0x87; }
 // BIP141: a 1-byte push opcode (OP_0, OP_1..OP_16) followed by one direct data push of 2..40 bytes
@@ -205,19 +197,18 @@ static Verdict Judge(const CBlock& b, int height, const PrevLookup& prev)
         for (size_t ti = 0; ti < b.vtx.size(); ti++) {
             const CTransaction& tx = *b.vtx[ti];
             int64_t legacy = 0;
-            for (auto& i : tx.vin) legacy += SigOps(B(i.scriptSig), false);
-            for (auto& o : tx.vout) legacy += SigOps(B(o.scriptPubKey), false);
+            for (auto& i : tx.vin) legacy += SigOps(i.scriptSig, false);
+            for (auto& o : tx.vout) legacy += SigOps(o.scriptPubKey, false);
             cost += 4 * legacy;
             if (ti == 0) continue;
             for (auto& i : tx.vin) {
                 const Bytes* spk = prev(i.prevout);
                 if (!spk) { known = false; continue; }
-                Bytes sig = B(i.scriptSig);
-                bool complete;
-                auto ops = Parse(sig, complete);
-                bool pushonly = complete;
-                for (auto& op : ops) if (op.code > 0x60) pushonly = false;
-                Bytes last = ops.empty() ? Bytes{} : ops.back().data;
+                // BIP16: the scriptSig must consist of pushes only; the redeem script is the last item pushed
+                bool pushonly = true;
+                Bytes last;
+                bool complete = Walk(i.scriptSig.data(), i.scriptSig.size(), [&](int code, const unsigned char* d, size_t l) { if (code > 0x60) pushonly = false; last.assign(d, d + l); });
+                pushonly = pushonly && complete;
                 int ver;
                 Bytes prog;
                 if (IsP2SH(*spk)) {
@@ -318,7 +309,8 @@ static CMutableTransaction CoinbaseTx(int height, const CaseSpec& c, int variant
     if (c.cb_script_sig) ss = *c.cb_script_sig;
     else ss = Cat({ref::HeightPush(height), {0x01, (unsigned char)(0x2a + variant)}, c.cb_tail});
     cb.vin[0].scriptSig = S(ss);
-    cb.vout.emplace_back(ck::RefLedger::Subsidy(height, Params().GetConsensus().nSubsidyHalvingInterval), ck::OpTrueSpk());
+    // the claimed amount (subsidy minus a case-specific amount) makes every case's block unique
+    cb.vout.emplace_back(ck::RefLedger::Subsidy(height, Params().GetConsensus().nSubsidyHalvingInterval) - (CAmount)(vx::fnv1a(c.name) % 1000000007ULL), ck::OpTrueSpk());
     for (auto& o : c.cb_outs) cb.vout.emplace_back(0, S(o));
     return cb;
 }
@@ -388,30 +380,36 @@ static CBlock Realize(ck::Node& n, const CBlockIndex* prev, const CaseSpec& c, c
         return std::make_pair(v.stripped, v.weight);
     };
     if (c.pad_mode) {
-        // sizes with zero-length padding, then solve for the padding lengths (commitment output added first: it is part of the size)
-        auto with_commit = [&](CBlock b) {
-            bool has_wit = false;
-            for (auto& t : b.vtx) has_wit |= t->HasWitness();
-            if (has_wit) ck::Refinalize(n, b, prev, /*redo_commitment=*/true, /*grind=*/false);
-            return b;
-        };
+        // sizes with placeholder padding (1-byte script / empty witness item; the commitment output is part of the size),
+        // then the padding lengths follow arithmetically
+        CBlock b0 = assemble(txs);
+        bool hw = false;
+        for (auto& t : b0.vtx) hw |= t->HasWitness();
+        if (hw) ck::Refinalize(n, b0, prev, /*redo_commitment=*/true, /*grind=*/false);
+        auto [s0, w0] = ref_sizes(b0);
+        int64_t w1 = w0;
         if (c.pad_mode & 2) {
-            auto [s0, w0] = ref_sizes(with_commit(assemble(txs)));
-            // script of length L (L >= 1): size contribution L + VarSize(L); currently L = 1
+            // script of length L (L >= 1) contributes L + VarSize(L) bytes; the placeholder has L = 1
             int64_t want_extra = (c.pad_mode == 2) ? (c.pad_weight - w0) : 4 * (c.pad_stripped - s0);
-            if (want_extra % 4) throw std::logic_error("non-witness padding cannot reach target (mod 4) in " + c.name);
-            int64_t extra = want_extra / 4; // bytes to add
+            if (want_extra % 4 || want_extra < 0) throw std::logic_error("non-witness padding cannot reach target in " + c.name);
+            int64_t extra = want_extra / 4;
             bool done = false;
             for (int64_t vs : {1, 3, 5}) {
                 int64_t L = 1 + extra - (vs - 1);
-                if (L >= 1 && (int64_t)ref::VarSize(L) == vs) { txs[pad_out_tx].outs[0] = Cat({{0x6a}, Rep(0x00, L - 1)}); done = true; break; }
+                if (L >= 1 && (int64_t)ref::VarSize(L) == vs) {
+                    Bytes sc(L, 0x00); // OP_RETURN, then one PUSHDATA4 of zeros (or bare OP_0s when too short for that)
+                    sc[0] = 0x6a;
+                    if (L >= 6) { sc[1] = 0x4e; uint32_t dl = L - 6; sc[2] = dl & 0xff; sc[3] = (dl >> 8) & 0xff; sc[4] = (dl >> 16) & 0xff; sc[5] = (dl >> 24) & 0xff; }
+                    txs[pad_out_tx].outs[0] = std::move(sc);
+                    done = true;
+                    break;
+                }
             }
             if (!done) throw std::logic_error("non-witness padding unsolvable in " + c.name);
+            w1 = w0 + want_extra;
         }
         if ((c.pad_mode & 1) && c.pad_weight >= 0) {
-            auto [s0, w0] = ref_sizes(with_commit(assemble(txs)));
-            (void)s0;
-            int64_t extra = c.pad_weight - w0;
+            int64_t extra = c.pad_weight - w1;
             bool done = false;
             for (int64_t vs : {1, 3, 5}) {
                 int64_t L = extra - (vs - 1);
@@ -499,7 +497,7 @@ static std::vector<CaseSpec> SigopCases(bool big)
     for (Src a : bulk) for (Src f : fine) {
         int sa = Scale(a), sf = Scale(f);
         int step = std::min(sa, sf) == 1 ? 1 : 4;
-        std::vector<int> deltas = big ? std::vector<int>{-2, -1, 0, 1, 2} : std::vector<int>{-1, 0, 1};
+        std::vector<int> deltas = big ? std::vector<int>{-2, -1, 0, 1, 2} : std::vector<int>{0, 1};
         for (int split = 0; split < (big ? 2 : 1); split++)
         for (int d : deltas) {
             int64_t T = 80000 + (int64_t)d * step;
@@ -532,6 +530,31 @@ static std::vector<CaseSpec> SigopCases(bool big)
             }
             v.push_back(c);
         }
+    }
+    // every OP_n CHECKMULTISIG (n = 1..16) and the look-alikes that are NOT "OP_n" (OP_0, OP_1NEGATE, a data push of a
+    // small number, OP_RESERVED) in a redeem script, a witness script and a P2SH-wrapped witness script
+    for (int d : {-1, 0, 1}) {
+        CaseSpec c;
+        c.family = "sigops";
+        c.name = "sigops/accurate-zoo/cost=" + std::to_string(80000 + d);
+        c.want_cost = 80000 + d;
+        Bytes in;
+        for (int k = 1; k <= 16; k++) { in.push_back(0x50 + k); in.push_back(k % 2 ? 0xae : 0xaf); }   // 136
+        for (unsigned char look : {0x00, 0x4f, 0x50}) { in.push_back(look); in.push_back(0xae); }        // 60 (OP_RESERVED is unexecuted here)
+        in.push_back(0x01); in.push_back(0x05); in.push_back(0xae);                                     // 20
+        Bytes zoo = Cat({{0x00, 0x63}, in, {0x68, 0x51}});                                              // 216 sigops, accurate
+        TxSpec t;
+        t.ins.push_back({SPK_TRUE, {}, {}, 0});
+        AddDecoys(t);                                                                                   // 12
+        t.ins.push_back({P2SH(zoo), PushData(zoo), {}, 0});                                             // 864
+        t.ins.push_back({P2WSH(zoo), {}, {zoo}, 0});                                                    // 216
+        Bytes prog = P2WSH(zoo);
+        t.ins.push_back({P2SH(prog), PushData(prog), {zoo}, 0});                                        // 216
+        t.outs.push_back(zoo);                                                                          // legacy: 20 CMS x 20 = 400 sigops = 1600
+        AddSigops(c, t, OUT_CS, 19000);                                                                 // 76000
+        AddSigops(c, t, SRC_P2WSH, (int)(80000 + d - (12 + 864 + 216 + 216 + 1600 + 76000)));
+        c.txs.push_back(t);
+        v.push_back(c);
     }
     // three-way mixes: everything at once
     for (int d : {-1, 0, 1}) {
@@ -582,7 +605,7 @@ static std::vector<CaseSpec> WeightCases(bool big)
         v.push_back(c);
     }
     // mixed: stripped size fixed, witness bytes fill the rest
-    std::vector<int64_t> strips = big ? std::vector<int64_t>{250000, 500000, 900000, 999000, 999900} : std::vector<int64_t>{500000, 999900};
+    std::vector<int64_t> strips = big ? std::vector<int64_t>{250000, 500000, 900000, 999000, 999900} : std::vector<int64_t>{999900};
     for (int64_t s : strips) for (int d : ds) {
         if (!big && (d == 2 || d == 3)) continue;
         CaseSpec c;
@@ -673,11 +696,12 @@ static std::vector<CaseSpec> Bip34Cases(int h)
 
 // =============================================================================================== execution
 struct Shared { std::atomic<uint64_t> next; };
+static bool g_fork_per_case = true; // thorough: every case in its own forked process; quick: per-worker sequence with rollback
 
 static std::string Join(const std::set<std::string>& s) { std::string o; for (auto& x : s) o += (o.empty() ? "" : "|") + x; return o; }
 
 // Runs one case in the current (forked) process. Writes result lines to fd.
-static void RunCase(ck::Node& n, const Pool& pool, const CaseSpec& c, int fd, bool verbose)
+static std::optional<uint256> RunCase(ck::Node& n, const Pool& pool, const CaseSpec& c, int fd, bool verbose)
 {
     const CBlockIndex* prev = n.tip();
     const int height = prev->nHeight + 1;
@@ -689,7 +713,7 @@ static void RunCase(ck::Node& n, const Pool& pool, const CaseSpec& c, int fd, bo
     } catch (const std::exception& e) {
         out += "H\t" + c.name + "\t" + e.what() + "\n";
         (void)!write(fd, out.data(), out.size());
-        return;
+        return std::nullopt;
     }
     double tm0 = vx::elapsed();
     if (verbose) printf("t realize done %.3f\n", tm0);
@@ -746,6 +770,8 @@ static void RunCase(ck::Node& n, const Pool& pool, const CaseSpec& c, int fd, bo
              ts.IsValid() ? "valid" : ts.GetRejectReason().c_str(), accepted ? "connected" : r.reason.c_str(), (int)pristine.vtx.size(), cpu_ms);
     out += buf;
     (void)!write(fd, out.data(), out.size());
+    if (accepted) return pristine.GetHash();
+    return std::nullopt;
 }
 
 struct Totals {
@@ -775,25 +801,34 @@ static void RunAll(ck::Node& n, const Pool& pool, const std::vector<CaseSpec>& c
         if (p < 0) throw std::runtime_error("fork failed");
         if (p == 0) {
             n.RepointBlocksDir(n.BlocksDir().parent_path() / ("c06w" + std::to_string(w)));
+            const uint256 base = n.tip()->GetBlockHash();
             for (;;) {
                 uint64_t i = sh->next.fetch_add(1);
                 if (i >= cases.size()) break;
                 if (vx::deadline_reached()) { std::string l = "D\t" + cases[i].name + "\n"; (void)!write(fd, l.data(), l.size()); continue; }
-                pid_t g;
-                while ((g = fork()) < 0) usleep(20000);
-                if (g == 0) { RunCase(n, pool, cases[i], fd, getenv("VX_VERBOSE") != nullptr); _exit(0); }
-                int st = 0;
-                waitpid(g, &st, 0);
-                if (!WIFEXITED(st) || WEXITSTATUS(st) != 0) {
-                    std::string l = "V\tC06-process-died:" + cases[i].family + "\tthe process validating this block died (" + (WIFSIGNALED(st) ? "signal " + std::to_string(WTERMSIG(st)) : "exit " + std::to_string(WEXITSTATUS(st))) + ")\t" + cases[i].name + "\n";
-                    (void)!write(fd, l.data(), l.size());
+                { std::string l = "B\t" + cases[i].name + "\t" + cases[i].family + "\n"; (void)!write(fd, l.data(), l.size()); }
+                if (g_fork_per_case) {
+                    pid_t g;
+                    while ((g = fork()) < 0) usleep(20000);
+                    if (g == 0) { RunCase(n, pool, cases[i], fd, getenv("VX_VERBOSE") != nullptr); _exit(0); }
+                    int st = 0;
+                    waitpid(g, &st, 0);
+                } else {
+                    // same process: an accepted block is rolled back with InvalidateBlock so the next case again builds on the base tip
+                    auto acc = RunCase(n, pool, cases[i], fd, getenv("VX_VERBOSE") != nullptr);
+                    if (acc) n.Invalidate(*acc);
+                    if (n.tip()->GetBlockHash() != base) {
+                        std::string l = std::string(acc ? "H" : "V\tC06-tip-moved") + "\t" + (acc ? cases[i].name + "\trollback to the base tip failed" : "tip changed although the block was not connected\t" + cases[i].name) + "\n";
+                        (void)!write(fd, l.data(), l.size());
+                        break;
+                    }
                 }
             }
             _exit(0);
         }
         pids.push_back(p);
     }
-    for (pid_t p : pids) { int st = 0; waitpid(p, &st, 0); if (!WIFEXITED(st) || WEXITSTATUS(st) != 0) T.crashes++; }
+    for (pid_t p : pids) { int st = 0; waitpid(p, &st, 0); }
     close(fd);
     munmap(sh, sizeof(Shared));
     std::ifstream f(path);
@@ -802,7 +837,12 @@ static void RunAll(ck::Node& n, const Pool& pool, const std::vector<CaseSpec>& c
     while (std::getline(f, line)) lines.push_back(line);
     std::sort(lines.begin(), lines.end()); // worker interleaving must not influence anything
     auto split = [](const std::string& s) { std::vector<std::string> p; size_t a = 0; for (;;) { size_t b = s.find('\t', a); p.push_back(s.substr(a, b == std::string::npos ? b : b - a)); if (b == std::string::npos) break; a = b + 1; } return p; };
+    std::map<std::string, std::string> begun;
+    for (auto& l : lines) { auto p = split(l); if (p[0] == "B" && p.size() >= 3) begun[p[1]] = p[2]; }
+    for (auto& l : lines) { auto p = split(l); if ((p[0] == "R" && p.size() >= 3) ) begun.erase(p[2]); if (p[0] == "H" && p.size() >= 2) begun.erase(p[1]); }
+    for (auto& [nm, fam] : begun) vx::violation("C06-process-died:" + fam, "the process validating this block died before reporting (abort/assert/crash inside the code under test)", "case: " + nm);
     for (auto& l : lines) {
+        if (getenv("VX_DUMP")) printf("%s\n", l.c_str());
         auto p = split(l);
         if (p[0] == "V" && p.size() >= 4) vx::violation(p[1], p[2], "case: " + p[3]);
         else if (p[0] == "H") { printf("HARNESS-ERROR C06 case %s: %s\n", p.size() > 1 ? p[1].c_str() : "?", p.size() > 2 ? p[2].c_str() : "?"); T.harness_error = true; }
@@ -830,6 +870,7 @@ int main(int argc, char** argv)
     vx::scratch_dir();
     auto& E = vx::ev();
     const bool big = vx::thorough();
+    g_fork_per_case = big;
     unsigned workers = std::min<unsigned>(vx::ncpu(), big ? 12 : 8);
     std::string only;
     if (!vx::ctx().replay.empty()) {
@@ -850,7 +891,7 @@ int main(int argc, char** argv)
         ck::RefLedger L;
         L.AddGenesis(Params().GenesisBlock());
         SetMockTime(Params().GenesisBlock().nTime + 600 * 100000);
-        std::vector<int> hs{1, 2, 16, 17, 127, 128, 129, 255, 256, 257};
+        std::vector<int> hs{1, 2, 15, 16, 17, 18, 127, 128, 129, 255, 256, 257};
         if (big) for (int h : {32767, 32768, 32769, 65535, 65536}) hs.push_back(h);
         Pool empty;
         for (int h : hs) {
@@ -863,7 +904,7 @@ int main(int argc, char** argv)
                 if (!node.ProcessBlock(b).pnb_ret || node.tip()->GetBlockHash() != b.GetHash()) throw std::runtime_error("base block rejected");
             }
             if (!only.empty() && !cases.empty()) { RunCase(node, empty, cases[0], 1, true); return 0; }
-            RunAll(node, empty, cases, workers, T);
+            RunAll(node, empty, cases, std::min(workers, 4u), T);
             bip34_heights++;
         }
     }
@@ -878,8 +919,8 @@ int main(int argc, char** argv)
         ck::MineEmpty(node, L, 110);
         std::vector<CaseSpec> cases;
         for (auto& c : CbPosCases()) cases.push_back(c);
-        for (auto& c : WeightCases(big)) cases.push_back(c);
-        for (auto& c : SigopCases(big)) cases.push_back(c);
+        for (auto& c : WeightCases(true)) cases.push_back(c);
+        for (auto& c : SigopCases(true)) cases.push_back(c);
         for (auto& c : Bip34Cases(112)) cases.push_back(c);
         // pool = for every scriptPubKey the largest number any single case needs (all cases start from the same base state)
         std::map<Bytes, size_t> need;
@@ -925,12 +966,22 @@ int main(int argc, char** argv)
             printf("case not found\n");
             return 2;
         }
+        // round-robin over the families, so a deadline cut never removes one family entirely
+        {
+            std::map<std::string, std::vector<CaseSpec>> byfam;
+            for (auto& c : cases) byfam[c.family].push_back(c);
+            std::vector<CaseSpec> mixed;
+            for (size_t k = 0; mixed.size() < cases.size(); k++)
+                for (auto& [f, v] : byfam) if (k < v.size()) mixed.push_back(v[k]);
+            cases = mixed;
+        }
         RunAll(node, pool, cases, workers, T);
     }
 
     E.evaluations = T.cases * 2;
     E.distinct_nontrivial = T.distinct.size();
     E.set("cases", T.cases);
+    E.set("fork_per_case", (uint64_t)g_fork_per_case);
     E.set("ref_accept", T.accepts);
     E.set("ref_reject", T.rejects);
     E.set("bip34_heights", bip34_heights);
@@ -946,7 +997,7 @@ int main(int argc, char** argv)
     E.assume("regtest consensus parameters (BIP34/segwit/taproot active at the tested heights); all blocks otherwise valid (scripts satisfiable, fees unclaimed)");
     E.assume("the transaction-count clause (vtx.size()*4 <= 4,000,000) is implied by the stripped-size clause (a transaction has >= 60 bytes) and cannot be isolated");
     // sanity gates: a vacuous or mis-constructed run must not pass
-    bool bad = T.harness_error || T.crashes;
+    bool bad = T.harness_error;
     if (only.empty() && vx::ev().exhaustive) {
         for (const char* f : {"cbpos", "bip34", "weight", "sigops"})
             if (T.fam[f].first == 0 || T.fam[f].second == 0) { printf("HARNESS-ERROR C06 family %s lacks accepts or rejects\n", f); bad = true; }
@@ -955,7 +1006,6 @@ int main(int argc, char** argv)
         for (int64_t c : {79996, 79999, 80000, 80001, 80004}) if (!T.costs.count(c)) { printf("HARNESS-ERROR C06 sigop cost %lld never constructed\n", (long long)c); bad = true; }
         for (int64_t w : {3999999, 4000000, 4000001, 4000002, 4000003, 4000004}) if (!T.weights.count(w)) { printf("HARNESS-ERROR C06 weight %lld never constructed\n", (long long)w); bad = true; }
     }
-    for (auto& [k, ms] : T.cpu_ms) printf("cpu in case processes: %s %ld ms\n", k.c_str(), ms);
     int rc = vx::finish();
     if (bad && rc == 0) return 2;
     return rc;
